@@ -93,6 +93,7 @@ func c13(r *mon.Run) {
 		fixed = append(fixed, c)
 	}
 	fixed = append(fixed, c06Specials()...)
+	fixed = append(fixed, c06HandBacks(false)...)
 	fixed = append(fixed,
 		gen.Pipe(gen.LitJSON("[3,1,2]"), gen.MultiList(gen.Chain(gen.Current(), gen.StIndex(0)), gen.Chain(gen.Func("sort_by", gen.Current(), gen.ExpRef(gen.Current())), gen.StIndex(0)))),
 		gen.Pipe(gen.LitJSON(`[{"n":2},{"n":1}]`), gen.MultiList(gen.Chain(gen.Current(), gen.StIndex(0)), gen.Func("sort_by", gen.Current(), gen.ExpRef(gen.Field("n"))), gen.Chain(gen.Current(), gen.StIndex(0)))),
@@ -620,6 +621,32 @@ func c13Rewritable() ([]*gen.Expr, []interface{}) {
 		gen.Or(gen.LitJSON("null"), x()), gen.And(gen.LitJSON("true"), x()), gen.Or(gen.LitJSON("false"), gen.Field("z")), gen.And(gen.LitJSON("[]"), x()), gen.Not(gen.LitJSON("null")), gen.Cmp("==", gen.LitJSON("1"), gen.LitJSON("1")), gen.Cmp("<", gen.LitJSON("1"), gen.Raw("1")),
 		gen.Func("length", gen.Raw("h\u00e9")), gen.Func("sort", gen.LitJSON("[3,1,2]")), gen.Func("max_by", gen.LitJSON(`[{"k":1,"v":"a"},{"k":1,"v":"b"}]`), k()), at(gen.Func("sort_by", gen.LitJSON(`[{"k":1,"v":"a"},{"k":1,"v":"b"},{"k":0,"v":"c"}]`), k()), gen.StIndex(-1), gen.StField("v")),
 	)
+	// sub-expressions built from literals only: constant for a non-null current node, null for a null one when a multi-select
+	// is involved - whatever evaluates "constants" ahead of time has to know against what
+	{
+		lit, raw := gen.LitJSON, gen.Raw
+		cln := func() *gen.Expr { return gen.MultiList(lit("3"), lit("1"), lit("2")) }
+		cls := func() *gen.Expr { return gen.MultiList(raw("b"), raw("a")) }
+		ch := func() *gen.Expr {
+			return gen.MultiHash([]gen.Key{{Name: "a"}, {Name: "b"}}, []*gen.Expr{lit("1"), raw("x")})
+		}
+		clo := func() *gen.Expr {
+			return gen.MultiList(gen.MultiHash([]gen.Key{{Name: "k"}, {Name: "v"}}, []*gen.Expr{lit("2"), raw("a")}), gen.MultiHash([]gen.Key{{Name: "k"}, {Name: "v"}}, []*gen.Expr{lit("1"), raw("b")}))
+		}
+		first := func(e *gen.Expr) *gen.Expr { return at(e, gen.StIndex(0)) }
+		trees = append(trees,
+			gen.Func("to_string", ch()), gen.Func("to_string", cln()), gen.Func("type", ch()), gen.Func("type", cln()), gen.Func("to_array", ch()), gen.Func("to_array", cln()), gen.Func("not_null", ch()), gen.Func("not_null", cln(), lit("1")),
+			gen.Func("length", cln()), gen.Func("length", ch()), gen.Func("sort", cln()), gen.Func("sort", cls()), gen.Func("reverse", cln()), gen.Func("join", raw(","), cls()), gen.Func("max", cln()), gen.Func("min", cls()), gen.Func("sum", cln()), gen.Func("avg", cln()),
+			gen.Func("length", gen.Func("keys", ch())), gen.Func("length", gen.Func("values", ch())), gen.Func("merge", ch(), ch()), gen.Func("contains", cln(), lit("1")), gen.Func("sort_by", clo(), k()), at(gen.Func("max_by", clo(), k()), gen.StField("v")), gen.Func("min_by", clo(), k()), gen.Func("map", k(), clo()),
+			gen.Cmp("==", cln(), cln()), gen.Cmp("==", ch(), ch()), gen.Cmp("!=", ch(), lit("null")), gen.Cmp("==", cln(), lit("[3,1,2]")), gen.Cmp("==", ch(), lit(`{"a":1,"b":"x"}`)), gen.Cmp("==", lit("null"), cln()), gen.Cmp("<", first(cln()), lit("5")),
+			gen.Func("abs", first(cln())), gen.Func("to_number", first(cls())), gen.Func("starts_with", first(cls()), raw("b")), gen.Func("ceil", first(cln())), gen.Func("to_string", first(cln())), gen.Func("type", first(cln())), gen.Func("type", at(ch(), gen.StField("a"))),
+			gen.Not(ch()), gen.Or(ch(), raw("d")), gen.And(ch(), raw("d")), gen.Or(cln(), raw("d")), gen.Not(gen.Not(cln())), at(cln(), gen.StFilter(gen.Cmp(">", gen.Current(), lit("1")))), at(cln(), gen.StListStar()), at(cln(), gen.StFlatten()), at(cln(), gen.StSliceS("1", "", "")),
+			gen.Func("length", at(ch(), gen.StStar())), at(ch(), gen.StField("a")), gen.Pipe(ch(), gen.Field("a")), gen.Pipe(raw("x"), ch()), gen.Pipe(raw("x"), gen.Func("to_string", ch())), gen.Pipe(lit("null"), gen.Func("type", ch())), gen.Pipe(lit("null"), cln()), gen.Pipe(gen.Field("z"), gen.Func("type", cln())),
+			at(x(), gen.StListStar(), gen.StMultiList(gen.Func("type", ch()))), at(x(), gen.StListStar(), gen.StFunc("type", cln())), gen.Func("map", gen.ExpRef(gen.Func("to_string", ch())), x()), gen.Func("map", gen.ExpRef(gen.Func("type", cln())), nn()), at(nn(), gen.StFilter(gen.Cmp("==", gen.Func("type", ch()), raw("object")))),
+			gen.Func("type", gen.MultiList(lit("1"))), gen.Func("type", gen.MultiList(lit("null"))), gen.Func("not_null", gen.MultiList(lit("null")), raw("d")), gen.Func("type", gen.Paren(ch())), gen.Func("type", gen.MultiList(ch())), gen.Func("to_string", gen.MultiHash(keyA("k"), []*gen.Expr{cln()})),
+			gen.Func("type", gen.Func("to_array", ch())), gen.Func("to_string", gen.Func("not_null", lit("null"), ch())), gen.MultiList(gen.Func("type", ch()), gen.Func("type", lit("1"))), gen.MultiHash(keyA("t"), []*gen.Expr{gen.Func("type", cln())}),
+		)
+	}
 	row := func(kv interface{}, v string) interface{} { return map[string]interface{}{"k": kv, "v": v} }
 	mk := func(xs []interface{}, nn []interface{}, ss []interface{}, n interface{}, s interface{}, o interface{}) interface{} {
 		return map[string]interface{}{"x": xs, "nn": nn, "ss": ss, "n": n, "s": s, "o": o, "z": nil}
